@@ -142,6 +142,12 @@ func runRevScenario(propID string, sc *RevScenario, rules []string, st *Stats, t
 		fired := countRevStats(sc, obs, st)
 		if sc.Sequential && si == 0 {
 			st.Probes["soak_histories"]++
+			for _, w := range sc.Worlds[1:] {
+				if w.HasST != sc.Worlds[0].HasST || !w.ST.Equal(sc.Worlds[0].ST) {
+					st.Probes["soak_step_with_another_signing_time"]++
+					break
+				}
+			}
 			st.Probes["soak_validations"] += int64(len(obs.Calls))
 			for _, r := range sc.Restarts {
 				if r {
